@@ -10,7 +10,7 @@ if [ ! -d /tmp/mrepo ]; then git -C /repo worktree add --detach /tmp/mrepo "$hea
 git -C /tmp/mrepo checkout -q -- . && git -C /tmp/mrepo checkout -q --detach "$head" || exit 2
 git -C /tmp/mrepo apply "$patch" || { echo "patch does not apply"; exit 2; }
 mkdir -p /tmp/mverif
-rsync -a --delete --exclude .cache --exclude work --exclude replays --exclude .git --exclude evidence /verif/ /tmp/mverif/
+rsync -a --delete --exclude .cache --exclude work --exclude replays --exclude .git --exclude evidence ${VERIF_SRC:-/verif}/ /tmp/mverif/
 mkdir -p /tmp/mverif/evidence
 sed -i 's#path = "/repo"#path = "/tmp/mrepo"#' /tmp/mverif/harness/Cargo.toml
 sed -i 's#lock_src = "/repo/Cargo.lock"#lock_src = "/tmp/mrepo/Cargo.lock"#' /tmp/mverif/bin/check
